@@ -38,6 +38,7 @@ Keep(c, x) == [x EXCEPT !.mf = fv[c].mf]      \* element-level operations do not
 SeqOf(c) == SubSeq(fv[c].slots, 1, fv[c].size)
 Live(c) == fv[c].st = "live"
 Lists == UNION { [1..k -> Vals] : k \in 0..MaxList }
+IsList(s) == Len(s) <= MaxList /\ \A i \in 1..Len(s) : s[i] \in Vals      \* membership in Lists without enumerating it
 
 Init == fv = [c \in C |-> Absent] /\ last = [op |-> "init", args |-> <<>>, out |-> "ok", val |-> <<>>, alt |-> <<>>]
 
@@ -54,12 +55,12 @@ Construct(c, cap) ==
   /\ fv' = [fv EXCEPT ![c] = Mk(cap, <<>>)] /\ Op("Construct", <<c, cap>>, "ok")
 
 ConstructFrom(c, cap, s) ==        \* fixed_vector(capacity, iterable)
-  /\ fv[c].st = "absent" /\ cap \in Caps /\ s \in Lists
+  /\ fv[c].st = "absent" /\ cap \in Caps /\ IsList(s)
   /\ IF Len(s) <= cap THEN fv' = [fv EXCEPT ![c] = Mk(cap, s)] /\ Op("ConstructFrom", <<c, cap, s>>, "ok")
      ELSE Raise("ConstructFrom", <<c, cap, s>>)
 
 ConstructList(c, s) ==             \* fixed_vector{...}: capacity = length
-  /\ fv[c].st = "absent" /\ s \in Lists
+  /\ fv[c].st = "absent" /\ IsList(s)
   /\ fv' = [fv EXCEPT ![c] = Mk(Len(s), s)] /\ Op("ConstructList", <<c, s>>, "ok")
 
 CopyConstruct(d, c) ==
@@ -86,7 +87,7 @@ MoveAssign(d, c) ==
   /\ Op("MoveAssign", <<d, c>>, "ok")
 
 AssignList(d, s) ==                \* open: capacity kept (if it fits) or replaced by the length; raise if it does not fit
-  /\ fv[d].st # "absent" /\ s \in Lists
+  /\ fv[d].st # "absent" /\ IsList(s)
   /\ \/ /\ Len(s) <= fv[d].cap
         /\ fv' = [fv EXCEPT ![d] = Mk(fv[d].cap, s)] /\ last' = [op |-> "AssignList", args |-> <<d, s>>, out |-> "ok", val |-> <<>>, alt |-> <<"newcap">>]
      \/ /\ fv' = [fv EXCEPT ![d] = Mk(Len(s), s)] /\ last' = [op |-> "AssignList", args |-> <<d, s>>, out |-> "ok", val |-> <<>>, alt |-> <<"keepcap", "raise">>]
@@ -139,7 +140,7 @@ Overwrite(s, k, r) ==              \* r written over s from 1-based position k, 
       IF i >= k /\ i < k + Len(r) THEN r[i - k + 1] ELSE s[i] ]
 
 RangeInsert(c, k, r) ==            \* insert(pos, first, last), pos = begin()+k
-  /\ Live(c) /\ r \in Lists /\ k \in Nat /\ k <= fv[c].cap
+  /\ Live(c) /\ IsList(r) /\ k \in Nat /\ k <= fv[c].cap
   /\ IF k > fv[c].size THEN Raise("RangeInsert", <<c, k, r>>)
      ELSE IF k + Len(r) <= fv[c].cap
           THEN fv' = [fv EXCEPT ![c] = Keep(c, Mk(fv[c].cap, Overwrite(SeqOf(c), k + 1, r)))] /\ Op("RangeInsert", <<c, k, r>>, "ok")
@@ -147,7 +148,7 @@ RangeInsert(c, k, r) ==            \* insert(pos, first, last), pos = begin()+k
                /\ Op("RangeInsert", <<c, k, r>>, "raise")
 
 PushBackRange(c, r) ==             \* push_back(first, last): the range form of append
-  /\ Live(c) /\ r \in Lists
+  /\ Live(c) /\ IsList(r)
   /\ IF fv[c].size + Len(r) <= fv[c].cap
      THEN fv' = [fv EXCEPT ![c] = Keep(c, Mk(fv[c].cap, SeqOf(c) \o r))] /\ Op("PushBackRange", <<c, r>>, "ok")
      ELSE /\ fv' = [fv EXCEPT ![c].st = "dirty"] /\ Op("PushBackRange", <<c, r>>, "raise")
